@@ -138,6 +138,18 @@ def judge_c06(sc, gr):
     v0 = sc.vstar[0]
     must_fail = gr.prune and v0 == 0
     if out.kind == "diverged":
+        why = false_tie_cycle(sc, gr) if gr.prune else None
+        if why:
+            return [("KF-C06-2", out.error, "a result", why)]
+        if not gr.prune:
+            # not pruned: the run may simply need more sweeps than the budget allows (expected absorption time in the millions
+            # when a rewarded cycle leaks 1e-7 per round); that is slow, not "forever", and is not judged
+            so = Rn.solve_reach_seam(sc.game(gr.rewards), False)
+            if so.kind == "ok":
+                ctl = O.conditioned(sc.players, sc.etl, so.result[0], so.result[1], False)
+                AR = sc.reward_game(ctl).max_time(range(sc.n))
+                if AR != inf and float(AR) > 2e4:
+                    return [("SKIP-too-slow-to-judge", float(AR), None, "expected absorption time %.3g: more sweeps than the budget" % float(AR))]
         return [("C06/no-termination", out.error, "a result or the no-solution error",
                  "solve() did not terminate within the deterministic budget on a stopping game")]
     if out.kind in ("exc", "valueerror"):
@@ -161,6 +173,61 @@ def judge_c06(sc, gr):
     if bad:
         return [("C06/incomplete-result", bad, "complete 8-tuple", "solve() returned an incomplete result: " + bad)]
     return []
+
+
+def explain_no_return(sc, rewards, prune):
+    """for a run that did not come back within the alarm: a finding (KF-C06-2 / SKIP) if one of the exact explanations
+    applies, else None (then the run is confirmed under the deterministic budget and judged)"""
+    class _G:
+        pass
+    g = _G()
+    g.rewards, g.prune = list(rewards), prune
+    if prune:
+        why = false_tie_cycle(sc, g)
+        return ("KF-C06-2", "no result within the alarm", "a result", why) if why else None
+    so = Rn.solve_reach_seam(sc.game(rewards), False)
+    if so.kind == "ok":
+        ctl = O.conditioned(sc.players, sc.etl, so.result[0], so.result[1], False)
+        AR = sc.reward_game(ctl).max_time(range(sc.n))
+        if AR != inf and float(AR) > 2e4:
+            return ("SKIP-too-slow-to-judge", float(AR), None, "expected absorption time %.3g: more sweeps than the budget" % float(AR))
+    return None
+
+
+def false_tie_cycle(sc, gr):
+    """signature of KF-C06-2: the pruned solve of a stopping game does not terminate because (a) the reachability phase keeps,
+    at some Player-1 state, an action whose exact value is below the optimum by no more than the convergence tolerance
+    (a tolerance-level 'false tie' of the documented 6-digit rounding), and (b) the conditioned game built from the REPORTED
+    probabilities and strategies therefore contains an end component with a positive reward reachable from the initial state.
+    Returns a description, or None if the signature does not match."""
+    so = Rn.solve_reach_seam(sc.game(gr.rewards), False)
+    if so.kind != "ok":
+        return None
+    probs, strats = so.result
+    ctl = O.conditioned(sc.players, sc.etl, probs, strats, True)
+    R = O.reachable_from(ctl, 0)
+    absorbing = set(s for s in range(sc.n) if not ctl[s] or all(t == s for _, t in ctl[s]))
+    C = O.end_component_states(sc.players, [row if row else [(F(1), s)] for s, row in enumerate(ctl)], absorbing)
+    C = set(s for s in C if s in R)
+    if not C or not any(gr.rewards[s] > 0 for s in C):
+        return None
+    v = sc.vstar
+    eps = sc.eps_reach()
+    false_ties = []
+    for s in R:
+        if sc.players[s] != P1:
+            continue
+        opt = max(v[t] for _, t in sc.tl[s])
+        for a, t in sc.tl[s]:
+            if a in strats[s] and v[t] != opt:
+                if float(opt - v[t]) > eps:
+                    return None           # a clearly worse action was kept: not this finding
+                false_ties.append((s, a, str(v[t]), str(opt)))
+    if not false_ties:
+        return None
+    return ("solve() with pruning does not terminate: at state %d action %r (exact value %s) is kept next to the optimum %s, "
+            "within the convergence tolerance, and the conditioned game then has a rewarded end component %s"
+            % (false_ties[0][0], false_ties[0][1], false_ties[0][2], false_ties[0][3], sorted(C)))
 
 
 # ------------------------------------------------------------------------------------------------- C01
@@ -272,12 +339,12 @@ def judge_c04(sc, strategies, probs, where="solve()[1]"):
 # ------------------------------------------------------------------------------------------------- C03
 
 def _rows_equal(exp, got, surviving_mass=1.0):
-    """position-by-position comparison; probabilities within float round-off of the documented formula p / (1 - removed):
-    relative 1e-12 plus a few units in the last place of 1 amplified by 1 / (surviving mass) - the subtraction 1 - removed
-    loses that much when almost everything is removed (4e-7 / (1 - 0.9999996) = 0.99999999997)"""
+    """position-by-position comparison; probabilities equal up to float round-off (relative 1e-12)"""
     if len(exp) != len(got):
         return False
-    tol = 1e-12 + 8 * 2.0 ** -53 / max(float(surviving_mass), 1e-300)
+    # the code now divides by the surviving mass itself (fix bc2917a), which is exact up to a few units in the last place;
+    # the earlier allowance for the cancellation in 1 - removed (8 ulp / surviving mass) is no longer needed
+    tol = 1e-12
     for a, b in zip(exp, got):
         if a[1] != b[1]:
             return False
